@@ -159,6 +159,7 @@ def wants (focus : String) (comp : String) : Bool :=
   | "C10" => comp == "res" || comp == "coef" || comp == "jac" || comp == "twins" || comp == "params"
   | "C18" => comp == "eps" || comp == "yw" || comp == "params" || comp == "res" || comp == "coef"
   | "C11" => comp == "res" || comp == "coef" || comp == "jac" || comp == "params" || comp == "ptwins"
+  | "C04state" => comp == "res" || comp == "coef" || comp == "params" || comp == "twins"
   | "C06" => comp == "res" || comp == "coef" || comp == "jac" || comp == "yw" || comp == "wtwins"
   | "C07" => comp == "res" || comp == "coef" || comp == "jac" || comp == "stwins"
   | _ => true
@@ -188,7 +189,7 @@ def condOf {n m s : Nat} (c : Cache n m s Float) (eps : Float) : Cond :=
   { smax := smax, sminKept := smin, kappa := if smin > 0.0 then smax / smin else 1e300,
     rank := kept.size, full := kept.size == m && m ≤ n, ambiguous := amb }
 
-def handleState (focus : String) (c : Case) : String := Id.run do
+def stateCore (focus : String) (c : Case) : Acc × String := Id.run do
   let n := attrNat c.header "n"; let m := attrNat c.header "m"
   let p := attrNat c.header "p"; let s := attrNat c.header "s"
   let width := attrNat c.header "width" 64
@@ -199,7 +200,7 @@ def handleState (focus : String) (c : Case) : String := Id.run do
   let tagBase := s!"{attrStr c.header "flavour"}/{width}/{attrStr c.header "wkind"}/{attrStr c.header "origin"}"
   if steps.size == 0 then
     let b := (c.firstWith "built").map (joinToks · 1) |>.getD "missing"
-    return s!"corr=FAIL(no-steps:{b.replace " " "_"}) mon=ok nontrivial=0 tag={tagBase}"
+    return ({ corr := #[s!"no-steps:{b.replace " " "_"}"] }, tagBase)
   let epsIn : Option Float := match c.firstWith "eps" with
     | some l => if l.getD 1 "" == "default" then none else some (parseF (l.getD 1 ""))
     | none => none
@@ -440,9 +441,16 @@ def handleState (focus : String) (c : Case) : String := Id.run do
     if si + 1 == steps.size && wants focus "yw" then
       if let some ywf := o.ywfinal then
         acc := acc.addMon (cmpBits s!"step{si}:yw-unchanged" (FMat.ofMat P.Yw).a ywf.a)
+  let kb := if kmax < 10.0 then "k<1e1" else if kmax < 1e3 then "k<1e3" else if kmax < 1e6 then "k<1e6" else "k>=1e6"
+  return (acc, s!"{tagBase}/{rankTag}/{kb}")
+
+def Acc.render (acc : Acc) (tag : String) : String :=
   let corr := if acc.corr.isEmpty then "ok" else s!"FAIL({";".intercalate (acc.corr.toList.take 3)})"
   let mon := if acc.mon.isEmpty then "ok" else s!"FAIL({";".intercalate (acc.mon.toList.take 3)})"
-  let kb := if kmax < 10.0 then "k<1e1" else if kmax < 1e3 then "k<1e3" else if kmax < 1e6 then "k<1e6" else "k>=1e6"
-  return s!"corr={corr} mon={mon} nontrivial={if acc.nontrivial && acc.compared > 0 then 1 else 0} tag={tagBase}/{rankTag}/{kb} compared={acc.compared} skipped={acc.skips}"
+  s!"corr={corr} mon={mon} nontrivial={if acc.nontrivial && acc.compared > 0 then 1 else 0} tag={tag} compared={acc.compared} skipped={acc.skips}"
+
+def handleState (focus : String) (c : Case) : String :=
+  let (acc, tag) := stateCore focus c
+  acc.render tag
 
 end Varpro.Drv
